@@ -284,6 +284,51 @@ theorem flat_normal_roundtrip (d : Desc) (o : Obj) (k : String)
           have := hreq k this
           simp [hasKey, hx] at this
 
+/-! ## composition over nesting: first level -/
+
+/-- a struct kind all of whose fields are plain JSON (no child kind, no post-processing) -/
+def leafKind (d : Desc) : Bool :=
+  d.template == .struct && d.fields.all (fun f => f.shape == .leaf) && d.post.isEmpty
+
+/-- For a kind with plain fields the deep round trip `rt` (what the driver evaluates and the differential
+    run compares with the real marshallers) is the flat round trip the generic theorems are about. -/
+theorem rt_leafKind (T : List Desc) (n : Nat) (k : String) (d : Desc) (o : Obj)
+    (hf : findDesc T k = some d) (hl : leafKind d = true) :
+    rt T (n + 2) (.kind k) (.obj o) = .ok (.obj (flatRT d o)) := by
+  simp only [leafKind, Bool.and_eq_true, beq_iff_eq, List.all_eq_true, List.isEmpty_iff] at hl
+  obtain ⟨⟨ht, hs⟩, hp⟩ := hl
+  have hpost : applyPost d o = o := by simp [applyPost, hp]
+  have hshape : ∀ g, shapeOfGo d g = .leaf := by
+    intro g
+    unfold shapeOfGo
+    cases hg : fieldByGo d g with
+    | none => rfl
+    | some f => exact hs f (List.mem_of_find?_eq_some hg)
+  have hchild : marshalDeep (rt T (n + 1)) d (unmarshal d o) = .ok (marshal d (unmarshal d o)) := by
+    apply marshalDeep_of_children_fixed
+    intro m _ _
+    rw [hshape]
+    rw [rt]
+    rfl
+  rw [rt]
+  simp only [hf, ht, hpost, hchild]
+  rfl
+
+/-- … hence for those kinds the deep round trip is stable: a second trip changes no key. -/
+theorem rt_leafKind_stable (T : List Desc) (n : Nat) (k : String) (d : Desc) (o : Obj)
+    (hf : findDesc T k = some d) (hl : leafKind d = true) (ha : structAgreeWith compat d = true) :
+    ∃ o1 o2, rt T (n + 2) (.kind k) (.obj o) = .ok (.obj o1) ∧
+             rt T (n + 2) (.kind k) (.obj o1) = .ok (.obj o2) ∧
+             ∀ key, lookup key o2 = lookup key o1 :=
+  ⟨flatRT d o, flatRT d (flatRT d o), rt_leafKind T n k d o hf hl, rt_leafKind T n k d _ hf hl,
+   fun key => flat_stable d o key ha⟩
+
+/-- the kinds of the table this covers -/
+theorem leaf_kinds :
+    (descriptors.filter leafKind).map (·.name) =
+      ["openapi3.Contact", "openapi3.Example", "openapi3.ExternalDocs", "openapi3.License", "openapi3.XML"] := by
+  decide
+
 /-! ## the regenerated table -/
 
 /-- the translator read every statement of every marshaller / unmarshaller -/
@@ -341,10 +386,18 @@ theorem emptyTypes_witness :
         (fun v => match v with | .obj [] => true | _ => false) = some true := by
   decide
 
-/-- NullRefEntry: a null entry of `components.schemas` makes serialisation panic (model outcome) -/
-theorem nullRefEntry_witness :
+/-- F-C03-2 (repaired): no position of any kind turns a null entry into a wrapper whose marshaller
+    dereferences a nil `Value` — the nine v3 wrappers check `Value` themselves, and the v2 wrapper (which does
+    not) never sits in a named map or map-like container -/
+theorem no_null_entry_panic : nullEntryPanicReachable descriptors = false := by decide
+
+/-- regression inputs of F-C03-2: a null entry is written back as null, both for value-receiver value kinds
+    and for the nil-tolerant `Callback` -/
+theorem nullRefEntry_fixed :
     (match rt descriptors 8 (.kind "openapi3.Components") (.obj [("schemas", .obj [("A", .null)])]) with
-     | .error .panic => true | _ => false) = true ∧
+     | .ok (.obj [("schemas", .obj [("A", .null)])]) => true | _ => false) = true ∧
+    (match rt descriptors 8 (.maplike "openapi3.Responses") (.obj [("200", .null)]) with
+     | .ok (.obj [("200", .null)]) => true | _ => false) = true ∧
     (match rt descriptors 8 (.kind "openapi3.Components") (.obj [("callbacks", .obj [("A", .null)])]) with
      | .ok _ => true | _ => false) = true := by
   decide
